@@ -223,6 +223,11 @@ pub struct Transaction {
 	/// The sequence number when this transaction started.
 	pub(crate) start_seq_num: u64,
 
+	/// Restore epoch of the commit oracle when the transaction began. After a
+	/// `restore_from_checkpoint` the transaction's horizon belongs to a timeline
+	/// that no longer exists; its commit is then refused with `TransactionRetry`.
+	restore_epoch: u64,
+
 	/// `savepoints` indicates the current number of stacked savepoints; zero
 	/// means none.
 	savepoints: u32,
@@ -262,6 +267,10 @@ impl Transaction {
 			mode,
 			durability,
 		} = opts;
+
+		// Restore epoch first, horizon second: a restore in between makes the
+		// epoch stale, never the other way round.
+		let restore_epoch = core.commit_pipeline.restore_epoch();
 
 		// Get the current visible sequence number as our start point.
 		let mut start_seq_num = core.seq_num();
@@ -307,6 +316,7 @@ impl Transaction {
 			durability,
 			closed: false,
 			start_seq_num,
+			restore_epoch,
 			savepoints: 0,
 			write_seqno: 0,
 			txn_guard,
@@ -814,7 +824,7 @@ impl Transaction {
 			// seq alloc + oracle.publish + WAL atomically under `write_mutex`,
 			// then runs memtable apply OUTSIDE the lock.
 			let should_sync = self.durability == Durability::Immediate;
-			self.core.commit(batch, should_sync, self.start_seq_num).await
+			self.core.commit(batch, should_sync, self.start_seq_num, Some(self.restore_epoch)).await
 		}
 		.await;
 
